@@ -50,7 +50,8 @@ def build(tier, seed):
                 % (L, list(SCAL), list(DTS), list(XIS), list(RATIOS)),
         'bounds': {'alphabet': [-1, 0, 1], 'max_len': L, 'dt': DTS, 'xi': XIS, 'T_over_dt': RATIOS, 'refinement': [2, 8], 'shifts': [1, 3]},
         'required_classes': ['pair-independent', 'split-changes-tail', 'shift-nonzero-response', 'perm-nonidentity',
-                             'partition-multiblock', 'refine', 'leading-zero-period', 'consecutive-calls', 'int-period-container', 'tiny-scale'],
+                             'partition-multiblock', 'refine', 'leading-zero-period', 'consecutive-calls', 'int-period-container', 'tiny-scale', 'object-history', 'record-number-type',
+                             'object-refinement-by-shortest-period'],
         'assumptions': ['relations are checked between executions of the implementation itself (no reference values needed)',
                         'refinement only where T/(dt/r) <= 2e4 (the domain of C01)'],
     }
@@ -138,6 +139,86 @@ def run_record(case, r):
                                        observed=g, expected=want)
                         except Exception as e:
                             r.fail('linearity.' + nm, sub, 'malformed result: %s' % e)
+            # ---- linearity through ONE signal object: the response belongs to the record the object holds now
+            # (response(b) after the object held a and answered the same request; response(a + b) after add_series(b))
+            for b in others[:: max(1, len(others) // 8)]:
+                sub = dict(base, b=b.tolist(), sequence='AccSignal(a).response_series; reset_values(b) / add_series(b); response_series')
+                ok, rb = r.call('call', dict(base, b=b.tolist()), sdof.response_series, b, dt, periods, xi)
+                if not ok:
+                    continue
+
+                def after_reset():
+                    s_ = eqsig.AccSignal(a, dt)
+                    s_.response_series(response_times=periods, xi=xi)
+                    s_.reset_values(b)
+                    return s_.response_series(response_times=periods, xi=xi)
+
+                def after_add():
+                    s_ = eqsig.AccSignal(a, dt)
+                    s_.response_series(response_times=periods, xi=xi)
+                    s_.add_series(b)
+                    return s_.response_series(response_times=periods, xi=xi)
+                for nm_, fn_, want_ in (('after-reset_values', after_reset, [np.asarray(x, dtype=float) for x in rb]),
+                                        ('after-add_series', after_add, [ra[j] + np.asarray(rb[j], dtype=float) for j in range(3)])):
+                    ok, got = r.call('linearity.object-history', dict(sub, step=nm_), fn_)
+                    if not ok:
+                        continue
+                    r.transitions += 1
+                    r.cls('object-history')
+                    amx = np.max(np.abs(a)) + np.max(np.abs(b))
+                    for j, nm in enumerate(('u', 'v', 'a')):
+                        try:
+                            g = np.asarray(got[j], dtype=float)
+                            r.n_cmp += 1
+                            pk = np.maximum(np.max(np.abs(ra[j]) + np.abs(np.asarray(rb[j], dtype=float)), axis=1), 1e-3 * amx * static[nm])[:, None]
+                            if g.shape != want_[j].shape or not np.all(np.abs(g - want_[j]) <= 1e-10 * pk + 1e-300):
+                                r.fail('linearity.object-history.' + nm, dict(sub, step=nm_),
+                                       'the response of the object is not the response of the record it holds', observed=g, expected=want_[j])
+                        except Exception as e:
+                            r.fail('linearity.object-history.' + nm, dict(sub, step=nm_), 'malformed result: %s' % e)
+            # ---- the record's number type is not part of the map: 1.0 * a (float64) and a held in an unsigned / narrow signed integer
+            # array (including the smallest value of the type, whose negation does not exist in the type) have the same response
+            if xi in (0.0, 0.05):
+                ai = np.array(case['a'], dtype=np.int64)
+                for tname, arr in (('uint8 (a+1)', (ai + 1).astype(np.uint8)), ('uint16 (a+1)*30000', ((ai + 1) * 30000).astype(np.uint16)),
+                                   ('uint64 (a+1)', (ai + 1).astype(np.uint64)),
+                                   ('int16 a*32768 clipped', np.clip(ai * 32768, -32768, 32767).astype(np.int16)),
+                                   ('int8 a*128 clipped', np.clip(ai * 128, -128, 127).astype(np.int8))):
+                    af_ = arr.astype(float)
+                    sub = dict(base, record=tname)
+                    ok0, want_ = r.call('call', dict(sub, record=tname + ' as float64'), sdof.response_series, af_, dt, periods, xi)
+                    if not ok0:
+                        continue
+                    r.cls('record-number-type')
+                    for ename, fn_ in (('response_series', lambda: sdof.response_series(arr, dt, periods, xi)),
+                                       ('object', lambda: eqsig.AccSignal(arr, dt).response_series(response_times=periods, xi=xi)),
+                                       ('pseudo_response_spectra', None)):
+                        if fn_ is None:
+                            ok1, w1 = r.call('call', dict(sub, record=tname + ' as float64'), sdof.pseudo_response_spectra, af_, dt, periods, xi)
+                            ok2, g1 = r.call('linearity.number-type', dict(sub, entry=ename), sdof.pseudo_response_spectra, arr, dt, periods, xi)
+                            if ok1 and ok2:
+                                for j in range(3):
+                                    try:
+                                        rel_close(r, 'linearity.number-type', dict(sub, entry=ename, out=j), g1[j], np.asarray(w1[j], dtype=float), 1e-10,
+                                                  'spectra of the typed record vs the same values as float64')
+                                    except Exception as e:
+                                        r.fail('linearity.number-type', dict(sub, entry=ename), 'malformed: %s' % e)
+                            continue
+                        ok, got = r.call('linearity.number-type', dict(sub, entry=ename), fn_)
+                        if not ok:
+                            continue
+                        r.transitions += 1
+                        for j, nm in enumerate(('u', 'v', 'a')):
+                            try:
+                                g = np.asarray(got[j], dtype=float)
+                                w_j = np.asarray(want_[j], dtype=float)
+                                r.n_cmp += 1
+                                pk = np.maximum(np.max(np.abs(w_j), axis=1), 1e-3 * float(np.max(np.abs(af_))) * static[nm])[:, None]
+                                if g.shape != w_j.shape or not np.all(np.abs(g - w_j) <= 1e-10 * pk + 1e-300):
+                                    r.fail('linearity.number-type.' + nm, dict(sub, entry=ename),
+                                           'response(a held as %s) != response(1.0 * a)' % tname, observed=g, expected=w_j)
+                            except Exception as e:
+                                r.fail('linearity.number-type.' + nm, dict(sub, entry=ename), 'malformed result: %s' % e)
             # ---- spectra scale with |alpha| and ignore the sign
             for al in (-1.0, 2.0, -3.0, 1e-9, 1e9):
                 if abs(al) != 1 and abs(al) < 1e-3:
@@ -241,25 +322,43 @@ def run_record(case, r):
             # ---- refinement through the object: AccSignal refines the record itself (min_dt_ratio) before integrating; its spectra
             # must be those of the array function on the linearly refined record (so they never fall below the raw-sample values)
             if oks:
-                for mdr in (2, 8):
+                # (periods, min_dt_ratio or None for the documented default of 4): the step limit dt/min_dt_ratio decides on the main menu;
+                # T_min/20 decides - with a non-integer ratio dt / (T_min/20) - on the three extra period lists
+                for periods_o, mdr in ((periods, 2), (periods, 8), (np.array([13 * dt, 50 * dt]), None), (np.array([40 * dt, 15 * dt]), None),
+                                       (np.array([17 * dt, 30 * dt]), 8), (np.array([7 * dt, 100 * dt]), None)):
+                    own_menu = periods_o is not periods
                     sub = dict(base, object_min_dt_ratio=mdr)
+                    if own_menu:
+                        sub['periods_over_dt'] = [float(x) for x in periods_o / dt]
+                        r.cls('object-refinement-by-shortest-period')
 
                     def obj():
-                        s_ = eqsig.AccSignal(a, dt, response_times=np.array(periods))
-                        s_.gen_response_spectrum(xi=xi, min_dt_ratio=mdr)
+                        s_ = eqsig.AccSignal(a, dt, response_times=np.array(periods_o))
+                        if mdr is None:
+                            s_.gen_response_spectrum(xi=xi)
+                        else:
+                            s_.gen_response_spectrum(xi=xi, min_dt_ratio=mdr)
                         return s_.s_d, s_.s_v, s_.s_a
                     ok, got = r.call('refinement.object', sub, obj)
                     if not ok:
                         continue
+                    if own_menu:
+                        ok_, spa_o = r.call('call', sub, sdof.pseudo_response_spectra, a, dt, periods_o, xi)
+                        if not ok_:
+                            continue
+                    else:
+                        spa_o = spa
                     r.transitions += 1
                     r.n_cmp += 1
                     try:
                         got = [np.asarray(x, dtype=float) for x in got]
                         match = False
-                        for f in (mdr, mdr + 1):      # T_min/20 < dt/mdr on this menu, so the required factor is mdr (or mdr+1 by float rounding)
+                        target = max(float(np.min(periods_o)) / 20, dt / (mdr or 4))
+                        fmin = max(int(np.ceil(dt / target - 1e-9)), 1)
+                        for f in range(fmin, fmin + 3):      # the required integer factor (or a finer one)
                             a_f = np.interp(np.arange((n - 1) * f + 1) / f, np.arange(n), a)
                             for tail in (a_f, np.concatenate([a_f, np.full(f - 1, a[-1])])):
-                                sp = sdof.pseudo_response_spectra(tail, dt / f, periods, xi)
+                                sp = sdof.pseudo_response_spectra(tail, dt / f, periods_o, xi)
                                 if all(np.asarray(x).shape == y.shape and np.all(np.abs(np.asarray(x, dtype=float) - y) <= 1e-9 * np.abs(y) + 1e-300)
                                        for x, y in zip(sp, got)):
                                     match = True
@@ -267,12 +366,12 @@ def run_record(case, r):
                             if match:
                                 break
                         if not match:
-                            r.fail('refinement.object', sub, 'spectra of the object differ from the array function on the record refined by %d' % mdr,
-                                   observed=got[0])
+                            r.fail('refinement.object', sub, 'spectra of the object differ from the array function on the record refined by the '
+                                   'integer factor %d (..%d)' % (fmin, fmin + 2), observed=got[0])
                         r.n_cmp += 1
-                        w_ = 2 * np.pi / periods
-                        tol = 1e-9 + 10 * EPS / (w_ * dt / (mdr + 1)) ** 3
-                        sd1 = np.asarray(spa[0], dtype=float)
+                        w_ = 2 * np.pi / periods_o
+                        tol = 1e-9 + 10 * EPS / (w_ * dt / (fmin + 2)) ** 3
+                        sd1 = np.asarray(spa_o[0], dtype=float)
                         if not np.all(got[0] >= sd1 - tol * np.maximum(sd1, got[0]) - 1e-300):
                             r.fail('refinement.object', sub, 'S_d of the object is below the value from the raw samples', observed=got[0], expected=sd1)
                     except Exception as e:
